@@ -334,6 +334,97 @@ theorem C18_ident_norm_no_underscore (s : List Char) : '_' ∉ identNorm s := by
   · exact absurd h (by decide)
   · rename_i hc; exact hc h
 
+/-! ### normalising while scanning (`parse_identifier(normalize)`, base.rs:135) -/
+
+theorem identNorm_reverse (l : List Char) : identNorm l.reverse = (identNorm l).reverse := by
+  simp [identNorm]
+
+theorem identNorm_append (a b : List Char) : identNorm (a ++ b) = identNorm a ++ identNorm b := by
+  simp [identNorm]
+
+/-- agreement of two scanner results up to the normal form of their texts -/
+def agreeT : ResT → ResT → Prop
+  | .ok j t, .ok j' t' => j = j' ∧ identNorm t' = identNorm t
+  | .err e sp, .err e' sp' => e = e' ∧ sp = sp'
+  | .unsupported, .unsupported => True
+  | _, _ => False
+
+theorem identNorm_cons (c : Char) (l : List Char) : identNorm (c :: l) = normChar c :: identNorm l := rfl
+
+theorem isName_underscore (c : Char) (h : (c == '_') = true) : isName c = true := by
+  have : c = '_' := by simpa using h
+  subst this; decide
+
+theorem identBody_norm_agree (u : Bool) (s : Array Char) (i : Nat) (acc : List Char) :
+    ∀ acc', identNorm acc' = identNorm acc → agreeT (identBody true u s i acc) (identBody false u s i acc') := by
+  fun_induction identBody true u s i acc
+  all_goals intro acc' hacc
+  all_goals (conv => arg 2; rw [identBody])
+  all_goals (simp only [*, ↓reduceDIte, ↓reduceIte, Bool.false_and, Bool.true_and, Bool.false_eq_true, not_false_eq_true] at *)
+  all_goals (try (simp [agreeT, identNorm_reverse, hacc]; done))
+  case case2 ih => exact ih _ (by simp [identNorm_cons, hacc])
+  case case4 ih _ =>
+    rename_i h
+    have hc : s[‹Nat›] = '_' := by simpa using h
+    rw [if_pos (isName_underscore _ h)]
+    refine ih _ ?_
+    rw [hc]; simp [identNorm_cons, hacc, normChar]
+  case case5 ih _ => exact ih _ (by simp [identNorm_cons, hacc])
+  case case6 j t hm ih _ =>
+    split
+    · rename_i j' t' hm'
+      rw [hm] at hm'; injection hm' with h1 h2; subst h1; subst h2
+      exact ih _ (by simp [identNorm_append, hacc])
+    · rename_i e sp hm'; rw [hm] at hm'; cases hm'
+    · rename_i hm'; rw [hm] at hm'; cases hm'
+  case case7 e sp hm _ =>
+    split
+    · rename_i j' t' hm'; rw [hm] at hm'; cases hm'
+    · rename_i e' sp' hm'; rw [hm] at hm'; injection hm' with h1 h2; subst h1; subst h2; simp [agreeT]
+    · rename_i hm'; rw [hm] at hm'; cases hm'
+  case case8 hm _ =>
+    split
+    · rename_i j' t' hm'; rw [hm] at hm'; cases hm'
+    · rename_i e' sp' hm'; rw [hm] at hm'; cases hm'
+    · simp [agreeT]
+
+
+theorem isNameStart_underscore (c : Char) (h : (c == '_') = true) : isNameStart c = true := by
+  have : c = '_' := by simpa using h
+  subst this; decide
+
+/-- `parse_identifier(normalize = true)` (variable names) and `(normalize = false)` consume exactly the
+    same tokens, fail in exactly the same way, and the texts they return have the same normal form —
+    so normalising while scanning and normalising in `Identifier::from` cannot disagree. -/
+theorem C18_parse_ident_normalize_agree (u : Bool) (s : Array Char) (i : Nat) :
+    agreeT (parseIdentifier true u s i) (parseIdentifier false u s i) := by
+  unfold parseIdentifier
+  generalize (if peekIs s i '-' = true then (i + 1, ['-']) else (i, [])) = ap
+  obtain ⟨a, pre⟩ := ap
+  dsimp only
+  split
+  · exact identBody_norm_agree u s _ _ _ rfl
+  · split
+    · rename_i ha
+      by_cases hu : (s[a] == '_') = true
+      · simp only [Bool.true_and, hu, ↓reduceIte, Bool.false_and, Bool.false_eq_true, isNameStart_underscore _ hu]
+        have hc : s[a] = '_' := by simpa using hu
+        refine identBody_norm_agree u s _ _ _ ?_
+        rw [hc]; simp [identNorm_cons, normChar]
+      · simp only [Bool.true_and, hu, ↓reduceIte, Bool.false_and, Bool.false_eq_true]
+        split
+        · exact identBody_norm_agree u s _ _ _ rfl
+        · split
+          · split
+            · exact identBody_norm_agree u s _ _ _ rfl
+            · simp [agreeT]
+            · simp [agreeT]
+          · simp [agreeT]
+    · simp [agreeT]
+
+example : parseIdentifier true false "a_b-c:".toList.toArray 0 = .ok 5 "a-b-c".toList ∧
+    parseIdentifier false false "a_b-c:".toList.toArray 0 = .ok 5 "a_b-c".toList := by decide +kernel
+
 /-! ### the full property (not proved: the parsers are not modelled above the scanner layer) -/
 
 /-- The full statement of C18 over an abstract compiler.  `compile y src` is `some css` or `none`
